@@ -253,6 +253,10 @@ def type_entries(td):
     return out
 
 
+FOREIGN_ATTRS = ["/// documented", "#[allow(dead_code)]", "#[doc = \"d\"]", "#[allow(unused, clippy::all)]",
+                 "/** block doc */", "#[cfg(all())]"]
+
+
 def render(td, rng=None, canonical=False, spell=None, vis="pub ", strip=False, extras=True,
            order_rng=None, layout=None, entries_hook=None):
     """Rust text of the definition. `spell(level, trait, params, default)` may override spelling."""
@@ -281,8 +285,17 @@ def render(td, rng=None, canonical=False, spell=None, vis="pub ", strip=False, e
             es = list(es)
             order_rng.shuffle(es)
         if layout is not None:
-            return A.layout_attrs(es, rng, layout, ind)
-        return A.layout_attrs(es, None if canonical else rng, None if not canonical else "one", ind)
+            return noise(A.layout_attrs(es, rng, layout, ind), ind)
+        return noise(A.layout_attrs(es, None if canonical else rng, None if not canonical else "one", ind), ind)
+
+    def noise(t, ind):
+        """foreign attributes (doc comments, lints) before / between / after the educe attributes of the same item"""
+        if canonical or rng is None or not FOREIGN_ATTRS or rng.random() >= (0.3 if t else 0.04):
+            return t
+        lines = t.splitlines(True)
+        for _ in range(rng.choice([1, 1, 2])):
+            lines.insert(rng.randint(0, len(lines)) if rng.random() < 0.5 else 0, ind + rng.choice(FOREIGN_ATTRS) + "\n")
+        return "".join(lines)
     out = []
     if td.other_derives and not strip:
         out.append("#[derive(%s)]\n" % ", ".join(td.other_derives))
